@@ -93,13 +93,35 @@ def fact_get(facts, key):
     return facts.get(sec, {}).get(name)
 
 
+def go_build_atomic(cmd_prefix, target, cwd, timeout):
+    """go build into a private temporary name, then rename over the target: other checks may be executing (and re-executing)
+    the current binary at this very moment; a rename never exposes a half-written file and running processes keep theirs."""
+    tmp = '%s.tmp.%d' % (target, os.getpid())
+    rc, out, dt = sh(cmd_prefix + ['-o', tmp, '.'], cwd=cwd, env=GOENV, timeout=timeout)
+    if rc == 0:
+        try:
+            # keep the old inode when nothing changed (identical bytes): avoids needless churn
+            if os.path.exists(target) and open(tmp, 'rb').read() == open(target, 'rb').read():
+                os.remove(tmp)
+            else:
+                os.replace(tmp, target)
+        except OSError as e:
+            return 1, 'cannot install %s: %s' % (target, e), dt
+    else:
+        try:
+            os.remove(tmp)
+        except OSError:
+            pass
+    return rc, out, dt
+
+
 def prepare(ctx):
     """Regenerate Gen from the source, check expectations, build proofs, audit, build harness. Serialised."""
     p = ctx.prop
     with Lock('prepare.lock'):
         sync_alt_lean()
         # --- kvfacts
-        rc, out, _ = sh(['go', 'build', '-o', os.path.join(BUILD, 'kvfacts'), '.'], cwd=os.path.join(VERIF, 'extract'), env=GOENV, timeout=300)
+        rc, out, _ = go_build_atomic(['go', 'build'], os.path.join(BUILD, 'kvfacts'), os.path.join(VERIF, 'extract'), 300)
         if rc != 0:
             ctx.broken.append(('tool', 'kvfacts does not build: ' + out[-400:]))
             return
@@ -157,7 +179,7 @@ def prepare(ctx):
             open(altmod, 'w').write(mod)
             shutil.copyfile(os.path.join(REPO, 'go.sum'), os.path.join(BUILD, 'go.alt.sum'))
             cmd = ['go', 'build', '-modfile', altmod, '-tags', 'verif', '-o', os.path.join(BUILD, 'kvharness'), '.']
-        rc, out, _ = sh(cmd, cwd=hdir, env=GOENV, timeout=900)
+        rc, out, _ = go_build_atomic(cmd[:cmd.index('-o')], os.path.join(BUILD, 'kvharness'), hdir, 900)
         if rc != 0:
             ctx.harness_ok = False
             ctx.broken.append(('build', 'harness/implementation does not build: ' + out[-600:]))
@@ -165,7 +187,7 @@ def prepare(ctx):
             cmd_r = [c for c in cmd]
             cmd_r.insert(2, '-race')
             cmd_r[cmd_r.index('-o') + 1] = os.path.join(BUILD, 'kvharness-race')
-            rc, out, _ = sh(cmd_r, cwd=hdir, env=GOENV, timeout=1200)
+            rc, out, _ = go_build_atomic(cmd_r[:cmd_r.index('-o')], os.path.join(BUILD, 'kvharness-race'), hdir, 1200)
             if rc != 0:
                 ctx.broken.append(('build', 'race harness does not build: ' + out[-600:]))
 
